@@ -582,6 +582,8 @@ def gen_writer(rng, version, threads, nrec_hint=0, logs=True, with_tai=False):
                  for _ in range(len(w['chunks']) + 1)]
     w['cpu_info'] = {'cpus': [rng.ident() for _ in range(rng.randint(0, 5))], 'n': rng.randrange(0, 1 << 20)}
     w['plist_fmt'] = rng.pick(['binary', 'binary', 'xml'])
+    if rng.chance(0.2):
+        w['padbyte'] = rng.pick(['ff', 'aa', '01', '20'])      # the bytes that align a block to 8 are whatever the writer left there
     if rng.chance(0.5):
         w['hdr'] = {'tag': rng.randrange(1 << 32), 'sub_tag': rng.randrange(1 << 32), 'length': rng.randrange(1 << 40), 'numer': rng.pick([0, 1, 125]),
                     'denom': rng.pick([0, 1, 3]), 'timestamp': rng.randrange(1 << 63), 'secs': rng.randrange(1 << 33), 'usecs': rng.randrange(1000000),
@@ -753,8 +755,11 @@ def _gen_block(rng, kind):
         return {'kind': kind, 'payload': {'Binaries': [{'Name': rng.ident(), 'Addr': rng.randrange(1 << 40)}
                                                          for _ in range(rng.randint(0, 3))]}}
     if kind == 'codes':
-        return {'kind': kind, 'text': ('\ufeff' if rng.chance(0.12) else '') + ''.join('0x%x\t%s\n' % (rng.randrange(1 << 32) & ~3, rng.ident())
-                                               for _ in range(rng.randint(0, 3)))}
+        text = ('\ufeff' if rng.chance(0.12) else '') + ''.join('0x%x\t%s\n' % (rng.randrange(1 << 32) & ~3, rng.ident())
+                                                                for _ in range(rng.randint(0, 3)))
+        if text and rng.chance(0.25):
+            text = text[:-rng.randint(1, 4)]          # the code file was split into blocks by size: a block may end in the middle of a line
+        return {'kind': kind, 'text': text}
     blk = {'kind': 'unknown', 'hex': rng.randbytes(rng.randint(0, 20)).hex()}
     if rng.chance(0.06):
         blk['hex'] = rng.randbytes(rng.pick([2000, 4096, 9000])).hex()        # a section nobody interprets may be big
@@ -812,6 +817,7 @@ def build_file(w, record_bytes):
     blocks = [(b['kind'], block_payload(b, fmt), bytes.fromhex(b['tag']) if b.get('kind') == 'unknown' and b.get('tag') else None)
               for b in w.get('blocks', [])]
     return writer.write_v3(tm, chunks, blocks, cpu_info=w.get('cpu_info'), filler1=bytes.fromhex(w.get('filler1', '')),
+                           padbyte=bytes.fromhex(w.get('padbyte', '00')),
                            filler2=bytes.fromhex(w.get('filler2', '')),
                            gaps=[bytes.fromhex(g) for g in w.get('gaps', [])], pad_last=w.get('pad_last', True),
                            plist_fmt=fmt, hdr=w.get('hdr'))
